@@ -3,3 +3,4 @@ pub mod session;
 pub mod sync;
 pub mod das;
 pub mod prune;
+pub mod hdr;
